@@ -43,6 +43,8 @@ class Session:
         self.max_violations = 200
         self.case_hooks = []  # callables run at the start of every case
         self.handed_out = []  # (function name, result object, copy taken when it was handed out) for container results
+        self.asked = []  # (bound query method, args, kwargs) issued by the driver in this case: re-asked, shuffled, at its end
+        self.asked_n = 0
 
     # -- per-case housekeeping ----------------------------------------------
     def begin_case(self, case):
@@ -69,6 +71,8 @@ class Session:
                 violation(props, "handed-out-result-stable", f"result-of-{fn_name}-changed-after-it-was-returned",
                           function=fn_name, returned=snap, now=obj)
         self.handed_out = []
+        self.asked = []
+        self.asked_n = 0
         self.case = None
         self.events = []
         self.registry = []
